@@ -27,6 +27,7 @@ def run(ctx):
     prog = ir.load_units(units + lib, force_inst=units)
     ctx.use_program(prog)
     check_unlink(ctx, prog)
+    check_chain_remove(ctx, prog)
     check_eq(ctx, prog)
     check_geometry(ctx, prog)
     check_rehash(ctx, prog)
@@ -37,6 +38,7 @@ def run(ctx):
     nrel = rc.check_relocation(ctx, prog, 'HashMap')
     ctx.floor('R-RC.f HashMap relocators', nrel, 1)
     check_map(ctx, prog)
+    check_map_alias(ctx, prog)
     check_set(ctx, prog)
     check_share(ctx, prog)
     check_enum_range(ctx, prog)
@@ -686,3 +688,106 @@ def check_share(ctx, prog):
             else:
                 ctx.ok('R-SHARE', f['pq'], role, fwhere(f), 'entries are copied one by one')
     ctx.floor('R-SHARE map members', n, 3)
+
+
+def check_chain_remove(ctx, prog):
+    """C02.chain: HashMap::remove interpreted (scansim) on a model bucket: a chain of 1..4 nodes (records key/value/next), the
+    key to remove at every position or absent.  Afterwards the chain reachable from the bucket head must be the original one
+    without the removed node, in order; exactly that node was deleted; no deleted node was read or written."""
+    import scansim
+    fs = [f for f in hm_members(prog, 'remove') if len(f['params']) == 1]
+    n = 0
+    for f in fs:
+        kt = T(f, f['params'][0]['t'])
+        kt = T(f, kt.get('to')) if kt.get('ref') else kt
+        if not kt.get('int'):
+            continue                # driven on the integer-keyed instantiations (the code is the same template)
+        n += 1
+        ctx.analysed(f)
+        role = 'remove:the chain keeps every other entry'
+        keys_all = [7, 263, 519, 775]
+        bad = und = None
+        runs = 0
+        for m in range(1, 5):
+            keys = keys_all[:m]
+            for target in keys + [1031]:
+                recs = {}
+                for i, k in enumerate(keys):
+                    recs['n%d' % i] = {'key': k, 'value': 2 * k, 'next': ('R', 'n%d' % (i + 1)) if i + 1 < m else 0}
+                bufs = {('O', 'bk'): [('R', 'n0')]}
+                mems = {'a': ('P', ('O', 'bk'), 0)}
+                r = scansim.Run(prog, f, bufs, mems=mems, methods={'binOf': lambda run, e, args: 0, '*': 'interp'}, objects=True,
+                                ignore=lambda st: st.get('k') == 'expr' and any(w.get('k') == 'call' and (w.get('pq') or '').endswith('::_n') for w in ir.stmt_exprs(st)))
+                r.recs.update(recs)
+                r.objlen['bk'] = 1
+                r.vars[f['params'][0]['id']] = target
+                runs += 1
+                desc = 'removing key %d from a bucket chain holding %s' % (target, keys)
+                try:
+                    r.run()
+                except scansim.OOB as o:
+                    bad = '%s touches a deleted node or leaves the bucket array: %s' % (desc, o)
+                    break
+                except (scansim.Unsupported, TypeError, KeyError, IndexError) as u:
+                    und = '%s: %s' % (desc, u)
+                    break
+                chain = []
+                p_ = bufs[('O', 'bk')][0]
+                while isinstance(p_, tuple) and p_[0] == 'R' and len(chain) < 10:
+                    chain.append(p_[1])
+                    p_ = r.recs[p_[1]]['next'] if not r.recs[p_[1]].get('__freed') else 0
+                want = ['n%d' % i for i, k in enumerate(keys) if k != target]
+                freed = sorted(nm for nm, rec in r.recs.items() if rec.get('__freed'))
+                want_freed = ['n%d' % i for i, k in enumerate(keys) if k == target]
+                if chain != want or freed != want_freed:
+                    lost = [recs[x]['key'] for x in want if x not in chain]
+                    bad = '%s leaves the chain %s%s%s' % (desc, [recs[x]['key'] for x in chain], ' - the entries %s are still in the map but unreachable (find/has miss them, enumeration skips them, the nodes leak)' % lost if lost else '',
+                                                         '; deleted nodes: %s, expected %s' % ([recs[x]['key'] for x in freed], [recs[x]['key'] for x in want_freed]) if freed != want_freed else '')
+                    break
+            if bad or und:
+                break
+        ctx.evaluations += runs
+        if und:
+            ctx.undecided('C02.chain', f['pq'], role, fwhere(f), 'outside the interpreted fragment: %s' % und)
+        else:
+            ctx.check(bad is None, 'C02.chain', f['pq'], role, fwhere(f), 'interpreted for %d (chain length, position) cases' % runs, bad or '')
+    ctx.floor('C02.chain remove() instantiations with integer keys', n, 1)
+
+
+def check_map_alias(ctx, prog):
+    """R-ALIAS for the sorted-array Map: a member that receives a key or value by reference (`const K&`, `const T&` - possibly an
+    entry of this very map: `m.set(k, m[j])`) must not read it after the element array was invalidated (insert shifts or
+    reallocates it).  Same typestate analysis as for Array / String / Var, with Array's own summaries for the forwarded calls."""
+    import alias, C01
+    ac_arr = alias.AliasClass(prog, ctx, 'Array', 'asl::Array', ('_a',), (), C01.array_risk)
+    unsafe_arr, _ = ac_arr.run('R-ALIAS', report=False)
+
+    def map_risk(f, p):
+        t = T(f, p['t'])
+        if not t.get('ref'):
+            return False
+        to = T(f, t.get('to'))
+        if to.get('recp') in ('asl::Map', 'asl::Dic'):
+            return f.get('n') == 'operator='
+        # key / value parameters: reference to one of the class's template arguments
+        s = (to.get('s') or '')
+        s = s[6:] if s.startswith('const ') else s
+        cls = f.get('cls') or ''
+        args = cls[cls.find('<') + 1:cls.rfind('>')] if '<' in cls else ''
+        parts, depth, cur = [], 0, ''
+        for ch in args:
+            if ch == '<':
+                depth += 1
+            elif ch == '>':
+                depth -= 1
+            if ch == ',' and depth == 0:
+                parts.append(cur.strip())
+                cur = ''
+            else:
+                cur += ch
+        if cur.strip():
+            parts.append(cur.strip())
+        return s in parts
+    ac = alias.AliasClass(prog, ctx, 'Map', 'asl::Map', (), ('a',), map_risk)
+    unsafe, n = ac.run('R-ALIAS', extern_summaries=unsafe_arr)
+    ctx.floor('R-ALIAS Map members x at-risk params', n, 4)
